@@ -29,6 +29,7 @@ THEOREMS = [
     "Gwcs.Units.with_units_in_frame_units",
     "Gwcs.Units.with_units_in_frame_units_twin",
     "Gwcs.Units.objects_agree",
+    "Gwcs.Units.pixel_quantity_converted",
 ]
 RULE = ("case = (WCS family: 1-D spectral / 1-D temporal / 2-D sky / 3-D sky+spectral cube / TAN imaging, units of the transform, units of the "
         "frames, units of the world inputs, sky frame of object inputs, point or array); each case builds the unit-carrying WCS and its "
@@ -68,6 +69,8 @@ def _out_frame(case):
         return cf.TemporalFrame(_ref(case), unit=u.Unit(ax[0]["world"]), name="world")
     if fam == "generic":
         return cf.CoordinateFrame(1, ("SPATIAL",), (0,), unit=(u.Unit(ax[0]["world"]),), name="world", axes_names=("g",))
+    if fam == "plane":      # a focal-plane-like output: Frame2D in angular units, no sky frame
+        return cf.Frame2D(name="world", unit=(u.Unit(ax[0]["world"]), u.Unit(ax[1]["world"])))
     sky = cf.CelestialFrame(reference_frame=SKY[case["sky"]], unit=(u.Unit(ax[0]["world"]), u.Unit(ax[1]["world"])), name="sky", axes_order=(0, 1))
     if fam in ("sky", "tan"):
         return sky
@@ -90,10 +93,10 @@ def _transform(case, with_units):
                  models.Pix2Sky_TAN() | models.RotateNative2Celestial(a0["b"], a1["b"], 180) | post)
         return t
     t = None
-    for ax in case["axes"]:
+    for i_ax, ax in enumerate(case["axes"]):
         if with_units:
             tu = u.Unit(ax["tout"])
-            s = models.Multiply(ax["a"] * tu / u.pix) | models.Shift(ax["b"] * tu)
+            s = models.Multiply(ax["a"] * tu / _pixu(case, i_ax)) | models.Shift(ax["b"] * tu)
         else:
             k = float(UNITS[ax["tout"]][1] / UNITS[ax["world"]][1])
             s = models.Multiply(ax["a"] * k) | models.Shift(ax["b"] * k)
@@ -109,6 +112,11 @@ def _transform(case, with_units):
     return t
 
 
+def _pixu(case, i):
+    """the unit of pixel axis i (a detector whose axes are in different units: pixels along one, adu-like counts along the other)"""
+    return u.Unit((case.get("pixu") or ["pix"] * 8)[i])
+
+
 def _use(w, n):
     """look at a WCS before it is edited (whatever it remembers from this must not outlive the edit)"""
     for f in (lambda: w.pixel_to_world_values(*[1.0] * n), lambda: w.pixel_to_world(*[1.0] * n),
@@ -122,7 +130,7 @@ def _use(w, n):
 
 def _build(case, with_units):
     n = len(case["axes"])
-    det = cf.CoordinateFrame(naxes=n, axes_type=("SPATIAL",) * n, axes_order=tuple(range(n)), name="detector", unit=(u.pix,) * n)
+    det = cf.CoordinateFrame(naxes=n, axes_type=("SPATIAL",) * n, axes_order=tuple(range(n)), name="detector", unit=tuple(_pixu(case, i) for i in range(n)))
     t, out = _transform(case, with_units), _out_frame(case)
     staged = case.get("staged")
     if staged == "insert_frame":
@@ -130,7 +138,7 @@ def _build(case, with_units):
         pre = None
         for _ in range(n):
             pre = models.Scale(1.0) if pre is None else pre & models.Scale(1.0)
-        mid = cf.CoordinateFrame(naxes=n, axes_type=("SPATIAL",) * n, axes_order=tuple(range(n)), name="binned", unit=(u.pix,) * n)
+        mid = cf.CoordinateFrame(naxes=n, axes_type=("SPATIAL",) * n, axes_order=tuple(range(n)), name="binned", unit=tuple(_pixu(case, i) for i in range(n)))
         w = gw.WCS([(det, pre), (mid, None)])
         _use(w, n)
         w.insert_frame(mid, t, out)
@@ -232,7 +240,12 @@ def impl(case):
         r["ai2wv"] = _try(lambda: _vals(w.array_index_to_world_values(*[np.asarray(np.floor(np.asarray(p) + 0.5), dtype=int) for p in pix][::-1])))
         r["w2aiv"] = _try(lambda: _vals(w.world_to_array_index_values(*worldarg)))
         r["p2w"] = _try(lambda: _objs(case, w.pixel_to_world(*pix)))
-        r["call_units"] = _try(lambda: _objs(case, w(*([p * u.pix for p in pix] if nm == "q" else pix), with_units=True)))
+        r["call_units"] = _try(lambda: _objs(case, w(*([p * _pixu(case, i) for i, p in enumerate(pix)] if nm == "q" else pix), with_units=True)))
+        # array indices (reversed pixel order), bare and as quantities in each axis's own unit: the objects of the whole-number pixels
+        ipix = [np.floor(np.asarray(p) + 0.5) for p in pix]
+        r["ai2w_ref"] = _try(lambda: _objs(case, w.pixel_to_world(*[x if case["array"] else float(x) for x in ipix])))
+        r["ai2w_bare"] = _try(lambda: _objs(case, w.array_index_to_world(*[np.asarray(x, dtype=int) if case["array"] else int(x) for x in ipix][::-1])))
+        r["ai2w_qty"] = _try(lambda: _objs(case, w.array_index_to_world(*[x * _pixu(case, i) for i, x in enumerate(ipix)][::-1])))
         # world inputs as quantities in other units
         alt = [x * u.Unit(a["world"]) for x, a in zip(worldarg, ax)]
         altq = [q.to(u.Unit(a["alt"])) for q, a in zip(alt, ax)]
@@ -253,6 +266,8 @@ def impl(case):
                 o.append(coord.SpectralCoord(altq[0]))
             elif case["family"] == "generic":
                 o.append(altq[0])
+            elif case["family"] == "plane":
+                o += [altq[0], altq[1]]
             else:
                 t_ = _ref(case) + altq[0]
                 # the same instant on another time scale is the same world point
@@ -261,6 +276,10 @@ def impl(case):
         r["inv_obj"] = _try(lambda: _vals(w.invert(*objs())))
         r["w2p_obj"] = _try(lambda: _vals(w.world_to_pixel(*objs())))
         r["inv_units"] = _try(lambda: _vals(w.invert(*altq, with_units=True)))
+        # WCS.transform from the output frame, named or handed over as the frame object, on the same rich inputs
+        r["tr_name"] = _try(lambda: _vals(w.transform(w.output_frame.name, "detector", *objs())))
+        r["tr_obj"] = _try(lambda: _vals(w.transform(w.output_frame, w.input_frame, *objs())))
+        r["tr_alt"] = _try(lambda: _vals(w.transform(w.output_frame.name, "detector", *altq)))
         if case["family"] in ("sky", "tan") and not case.get("mixed"):
             # the iterative solver called directly: the same world point however it is given
             r["numinv_alt"] = _try(lambda: _vals(w.numerical_inverse(*altq)))
@@ -274,7 +293,7 @@ def impl(case):
         # pixel quantities in a wrong unit, all / first only / last only
         bad = u.Unit(case["bad_pix_unit"])
         for tag, args in (("all", [p * bad for p in pix]), ("first", [pix[0] * bad] + list(pix[1:])), ("last", list(pix[:-1]) + [pix[-1] * bad]),
-                          ("right", [p * u.pix for p in pix])):
+                          ("right", [p * _pixu(case, i) for i, p in enumerate(pix)])):
             r["pixq_" + tag] = _try(lambda: _objs(case, w.pixel_to_world(*args)))
             if bad.is_equivalent(u.pix) and tag != "right":
                 # a unit that converts to pixels (mpix): rejected, or converted - the reference is the same call on the converted numbers
@@ -337,9 +356,19 @@ def oracle(case, res):
                     out.append(("objects", "%s on the %s WCS returns objects not in the frame's declared units/frame: %s" % (op, nm, r["kinds"])))
         if "err" not in q[op] and "err" not in t[op] and [k for k in q[op]["kinds"]] != [k for k in t[op]["kinds"]]:
             out.append(("objects", "%s: twins build different kinds of objects %s vs %s" % (op, q[op]["kinds"], t[op]["kinds"])))
+    for nm in ("q", "t"):
+        ref = res[nm].get("ai2w_ref")
+        for op in ("ai2w_bare", "ai2w_qty"):
+            r = res[nm].get(op)
+            if r is None or ref is None or "err" in ref:
+                continue
+            if "err" in r:
+                out.append(("array_index", "%s failed on the %s WCS (pixel axis units %s): %s" % (op, nm, case.get("pixu", "pix"), r["msg"])))
+            elif not all(_close(a, b) for a, b in zip(r["v"], ref["v"])):
+                out.append(("array_index", "%s on the %s WCS gives %s, pixel_to_world of the same whole-number pixels %s" % (op, nm, r["v"], ref["v"])))
     # 3. every way of giving the world point inverts to the same pixels
     otol = max(ptol, 1e-5) if case.get("obj_sky", case.get("sky")) != case.get("sky") else ptol   # FK4 e-terms do not round-trip exactly
-    for op in ("inv_alt", "inv_frame_q", "inv_bare", "inv_obj", "w2p_obj", "inv_units", "inv_equiv", "numinv_alt", "numinv_obj", "numinv_bare"):
+    for op in ("inv_alt", "inv_frame_q", "inv_bare", "inv_obj", "w2p_obj", "inv_units", "inv_equiv", "numinv_alt", "numinv_obj", "numinv_bare", "tr_name", "tr_obj", "tr_alt"):
         for nm in ("q", "t"):
             r = res[nm].get(op)
             if r is None:
@@ -349,9 +378,9 @@ def oracle(case, res):
                 out.insert(0, ("D40", "%s on the unit-carrying WCS: %s" % (op, r["msg"])))
             elif "err" in r:
                 out.append(("invert", "%s failed on the %s WCS: %s" % (op, nm, r["msg"])))
-            elif not all(_close(a, b, absol=max(1e-4, otol) if "numinv" in op else otol if "obj" in op else ptol) for a, b in zip(r["v"], pix)) or len(r["v"]) != n:
+            elif not all(_close(a, b, absol=max(1e-4, otol) if "numinv" in op else otol if ("obj" in op or op == "tr_name") else ptol) for a, b in zip(r["v"], pix)) or len(r["v"]) != n:
                 out.append(("invert", "%s on the %s WCS (world in %s%s) gives pixels %s, expected %s" %
-                            (op, nm, [a["alt"] for a in case["axes"]], ", objects in " + case.get("obj_sky", "-") if "obj" in op else "", r["v"], pix)))
+                            (op, nm, [a["alt"] for a in case["axes"]], ", objects in " + case.get("obj_sky", "-") if ("obj" in op or op == "tr_name") else "", r["v"], pix)))
     # 4. pixel quantities
     for nm in ("q", "t"):
         for tag in ("all", "first", "last"):
@@ -389,7 +418,7 @@ def _model_axes(case, twin):
 def request(case, res):
     if case["family"] == "frames3":
         return None
-    if case["family"] == "tan" or case["array"] or "err" in res["q"]["p2wv"]:
+    if case["family"] == "tan" or case["array"] or "err" in res["q"]["p2wv"] or case.get("pixu"):
         return None
     pix = [Fraction(p[0]) for p in case["pix"]]
     reqs = []
@@ -506,7 +535,7 @@ def gen(rng, tier):
 def _gen_main(rng, tier):
     q = tier == "quick"
     for _ in range(60 if q else 1500):
-        fam = rng.choice(["spectral", "spectral", "temporal", "generic", "sky", "sky", "cube", "cube", "tan"])
+        fam = rng.choice(["spectral", "spectral", "temporal", "generic", "sky", "sky", "cube", "cube", "tan", "plane"])
         case = {"family": fam, "array": rng.random() < 0.35, "bad_pix_unit": rng.choice(["m", "deg", "arcsec", "s", "um", "mpix", "mpix"])}
         if fam == "spectral":
             case["axes"] = [_axis(rng, rng.choice([2, 3]), "x")]
@@ -514,7 +543,7 @@ def _gen_main(rng, tier):
             case["axes"] = [_axis(rng, 2, "x")]
         elif fam == "temporal":
             case["axes"] = [_axis(rng, 4, "x")]
-        elif fam in ("sky", "cube"):
+        elif fam in ("sky", "cube", "plane"):
             case["axes"] = [_axis(rng, 1, "lon"), _axis(rng, 1, "lat")]
             if fam == "cube":
                 case["axes"].append(_axis(rng, rng.choice([2, 3]), "x"))
@@ -533,6 +562,8 @@ def _gen_main(rng, tier):
         if fam == "temporal":
             case["epoch"] = rng.choice([None, "2016-12-31T12:00:00", "1999-12-31T12:00:00"])
             case["tscale"] = rng.choice([None, "tai", "tt", "utc"])
+        if fam in ("sky", "plane", "cube") and rng.random() < 0.3:
+            case["pixu"] = ["pix", "adu", "pix"][:len(case["axes"])]       # pixel axes in different units
         if rng.random() < 0.3:
             # the WCS reached through a history (built in stages and used in between) rather than in one go
             case["staged"] = rng.choice(["insert_frame", "insert_frame", "set_transform", "insert_transform"])
